@@ -151,6 +151,10 @@ def alias(ctx) -> None:
     ctx.rep.check(ok, rule, f"{vol.qualname}/return", "volumes returns a copy", "Labware.volumes does not return a copy of the array", where=vol.where())
 
 
+def is_name_(e, name):
+    return isinstance(e, ast.Name) and e.id == name
+
+
 def _is_copy(e: ast.AST) -> bool:
     if isinstance(e, ast.Call):
         fn = call_fname(e)
@@ -479,6 +483,19 @@ def ctor(ctx) -> None:
         # the stored array must be a copy of the validated one
         ok_copy = _is_copy(n.ast.value) or _is_copy(val)
         ctx.rep.check(ok_copy, rule, f"{c}/copy", "initial array is copied", "the caller's initial_volumes array becomes the live volume buffer (no copy): it can be changed from outside without any check", where=w)
+        # the buffer must hold floats: an integer array silently truncates every fractional amount written into it,
+        # so the limit comparisons would run on under-counted volumes
+        def floaty(e):
+            for sub_ in ast.walk(e):
+                if isinstance(sub_, ast.Call) and call_fname(sub_) == "astype" and sub_.args and (is_name_(sub_.args[0], "float") or (isinstance(sub_.args[0], ast.Attribute) and sub_.args[0].attr in ("float64", "float_", "double"))):
+                    return True
+                if isinstance(sub_, ast.Call) and any(k.arg == "dtype" and (is_name_(k.value, "float") or (isinstance(k.value, ast.Attribute) and k.value.attr in ("float64", "float_", "double"))) for k in sub_.keywords):
+                    return True
+            return False
+
+        ctx.rep.check(floaty(n.ast.value) or floaty(val), rule, f"{c}/float", "the volume buffer is created as a float array",
+                      "the volume buffer keeps the dtype of the caller's initial volumes: integer initial volumes give an integer buffer, which truncates every fractional amount added or removed "
+                      "(the limit checks then see under-counted volumes)", where=w)
 
 
 # ----------------------------------------------------------------------------- no-swallow
